@@ -75,3 +75,10 @@ claim(
     "Trusted: the scheduler is deterministic in (period, observed state); patched battery noise continues across the interruption; the 'scheduler' attribute is excluded from the dump comparison (documented as not serialised).",
     "DESIGN.md 3/C09",
 )
+claim(
+    "C10",
+    "Hypothesis-generated scenarios with three generated permutations and a time shift; metamorphic relations (same spec twice, permuted build, shifted build) on per-station outputs; tie exclusion by construction plus runtime discard",
+    "Exploration: 600 (quick) / 30 000 (thorough) generated scenarios with heavy contention and binding constraints; scripted, uncontrolled, greedy and round-robin (five sort orders, with/without uninterrupted charging, max_recompute 1/2/3/None) schedulers. Same spec twice is bit-identical; permuting station registration, constraint insertion and event insertion leaves per-station pilots exactly equal and rates/energies equal to 1e-12; shifting all events by k in [1,8] shifts pilots, rates and event times by k.",
+    "Trusted: arrivals/departures/estimated departures pairwise distinct, laxity/processing-time near ties discarded and counted; noise off; no upper-bound estimator; the shift relation is claimed for max_recompute in {None,1} or a first event in period 0.",
+    "DESIGN.md 3/C10",
+)
